@@ -15,7 +15,7 @@ pub const CHECK: Check = Check {
     id: "C09",
     run,
     case_fn,
-    rule: "cases = (one scalar value c as a one-character test case, a subset of the six conversion flags). Oracle: build([c]) is exactly ^\\X$ for the class token X that the documented precedence assigns to c using regex-syntax's own \\d/\\w/\\s tables, and a literal (not a class token) when no enabled class contains c; the output matches c on the real engine. Quick: all table boundaries (grex's and regex-syntax's) +-1, all of U+0000..U+2FFF and a seeded stride sample under the 6 single flags, plus all 64 subsets on the boundaries; thorough: every scalar value under the 6 single flags. Non-trivial = c lies in \\d, \\w or \\s or is a table boundary. Distinct = hash of (c, flags).",
+    rule: "cases = (one scalar value c as a one-character test case, a subset of the six conversion flags). Oracle: build([c]) is exactly ^\\X$ for the class token X that the documented precedence assigns to c using regex-syntax's own \\d/\\w/\\s tables, and a literal (not a class token) when no enabled class contains c; the output matches c on the real engine. Both tiers: every scalar value under the 6 single flags (the property's own quantifier, exhaustive) and all 64 subsets on all table boundaries (grex's and regex-syntax's) +-1; all 64 subsets on a seeded stride-13 sample of all scalars (quick) or on every scalar (thorough). Non-trivial = c lies in \\d, \\w or \\s or is a table boundary. Distinct = hash of (c, flags).",
     assumptions: &["'the regex crate's class of that name' = regex-syntax 0.8.4 Unicode perl classes as parsed from \\d, \\w, \\s"],
 };
 
@@ -154,26 +154,16 @@ fn run(ctx: &mut Ctx) {
     ctx.exhaustive("boundaries x 64 subsets", nb * 64, &|i| bcase(b[(i / 64) as usize], mask_cfg((i % 64) as u32)), &case_fn);
 
     let singles = single_flag_cfgs();
-    match ctx.tier {
-        Tier::Quick => {
-            let dense = 0x3000u64;
-            ctx.exhaustive("U+0000..U+2FFF x 6 flags", dense * 6, &|i| Case::new(vec![scalar(i / 6).unwrap().to_string()], singles[(i % 6) as usize].clone()), &case_fn);
-            let stride = 53u64;
-            let off = ctx.seed % stride;
-            let cnt = (SCALARS - dense) / stride;
-            ctx.exhaustive("stride sample x 6 flags", cnt * 6, &|i| {
-                let cp = (dense + (i / 6) * stride + off).min(SCALARS - 1);
-                Case::new(vec![scalar(cp).unwrap().to_string()], singles[(i % 6) as usize].clone())
-            }, &case_fn);
-        }
-        Tier::Thorough => {
-            // the property's own quantifier ("all 1,112,064 scalar values x 6 single conversion flags")
-            ctx.exhaustive_domain = true;
-            ctx.exhaustive("all scalars x 6 flags", SCALARS * 6, &|i| Case::new(vec![scalar(i / 6).unwrap().to_string()], singles[(i % 6) as usize].clone()), &case_fn);
-            // all 64 subsets on a stride sample of all scalars
-            let stride = 17u64;
-            let cnt = SCALARS / stride;
-            ctx.exhaustive("stride sample x 64 subsets", cnt * 64, &|i| Case::new(vec![scalar((i / 64) * stride).unwrap().to_string()], mask_cfg((i % 64) as u32)), &case_fn);
-        }
-    }
+    // the property's own quantifier, exhaustively, in BOTH tiers: all 1,112,064 scalar values x the 6
+    // single conversion flags (about 20 s on 16 cores)
+    ctx.exhaustive_domain = true;
+    ctx.exhaustive("all scalars x 6 flags", SCALARS * 6, &|i| Case::new(vec![scalar(i / 6).unwrap().to_string()], singles[(i % 6) as usize].clone()), &case_fn);
+    // all 64 subsets: a seeded stride sample of all scalars in quick, every scalar in thorough
+    let stride = ctx.tier.pick(13u64, 1);
+    let off = if stride > 1 { ctx.seed % stride } else { 0 };
+    let cnt = SCALARS / stride;
+    ctx.exhaustive(if stride == 1 { "all scalars x 64 subsets" } else { "stride sample x 64 subsets" }, cnt * 64, &|i| {
+        Case::new(vec![scalar(((i / 64) * stride + off).min(SCALARS - 1)).unwrap().to_string()], mask_cfg((i % 64) as u32))
+    }, &case_fn);
+    let _ = Tier::Quick;
 }
